@@ -273,6 +273,19 @@ func (h *FBDNSDB) ServeDNSWithRCODE(ctx context.Context, w dns.ResponseWriter, r
 		h.stats.IncrementCounter("DNS_response.refused")
 		m := new(dns.Msg)
 		m.SetRcode(r, dns.RcodeRefused)
+		if r.IsEdns0() != nil {
+			// as on every other path: our own OPT, so that the client-subnet option is echoed
+			// (the request's OPT that SizeAndDo would reuse is stripped of it)
+			o = new(dns.OPT)
+			o.Hdr.Name = "."
+			o.Hdr.Rrtype = dns.TypeOPT
+
+			if ecs != nil {
+				o.Option = append(o.Option, ecs)
+			}
+
+			m.Extra = append([]dns.RR{o}, m.Extra...)
+		}
 		// does not matter if this write fails
 		return h.writeAndLog(state, m, ecs)
 	}
